@@ -310,22 +310,9 @@ class Model:
                 if (constr.dec_model is not self.rc_model) or \
                         (constr.rand_model is not self.sup_model):
                     raise ValueError('Models mismatch.')
-                sense = (constr.sense[0] if isinstance(constr.sense,
-                                                       np.ndarray)
-                         else constr.sense)
-                if sense == 0:
-                    self.all_constr.append(constr)
-                else:
-                    left = RoAffine(constr.raffine, constr.affine,
-                                    constr.rand_model)
-                    right = RoAffine(-constr.raffine, -constr.affine,
-                                     constr.rand_model)
-                    left_constr = RoConstr(left, sense=0)
-                    left_constr.support = constr.support
-                    right_constr = RoConstr(right, sense=0)
-                    right_constr.support = constr.support
-                    self.all_constr.append(left_constr)
-                    self.all_constr.append(right_constr)
+                # an equality is split into two inequalities when the model
+                # is formulated, with the support it has then
+                self.all_constr.append(constr)
             else:
                 raise TypeError('Unknown type of constraints')
 
@@ -385,12 +372,27 @@ class Model:
                                    ExpConstr, KLConstr, LMIConstr, IPCone)):
                 self.rc_model.st(constr)
             if isinstance(constr, RoConstr):
-                if constr.support:
-                    rc_constrs = constr.le_to_rc()
+                sense = (constr.sense[0] if isinstance(constr.sense,
+                                                       np.ndarray)
+                         else constr.sense)
+                if sense == 0:
+                    parts = [constr]
                 else:
-                    rc_constrs = constr.le_to_rc(self.obj_support)
-                for rc_constr in rc_constrs:
-                    self.rc_model.st(rc_constr)
+                    left = RoAffine(constr.raffine, constr.affine,
+                                    constr.rand_model)
+                    right = RoAffine(-constr.raffine, -constr.affine,
+                                     constr.rand_model)
+                    parts = [RoConstr(left, sense=0),
+                             RoConstr(right, sense=0)]
+                    for part in parts:
+                        part.support = constr.support
+                for part in parts:
+                    if part.support:
+                        rc_constrs = part.le_to_rc()
+                    else:
+                        rc_constrs = part.le_to_rc(self.obj_support)
+                    for rc_constr in rc_constrs:
+                        self.rc_model.st(rc_constr)
 
         formula = self.rc_model.do_math(primal, obj=True)
 
